@@ -8,7 +8,9 @@ import (
 	"fmt"
 	"os"
 	"path/filepath"
+	"reflect"
 	"regexp"
+	goruntime "runtime"
 	"runtime/debug"
 	"strconv"
 	"strings"
@@ -169,6 +171,7 @@ type caseResult struct {
 	TempDefs   int
 	Collisions int // steps after which some (vm,kind,name) had more than one candidate
 	Discards   int
+	Reused     int // discards after which the slot's new TempVM sits at the address of a discarded one
 	Aborted    string
 	Violations []finding
 }
@@ -188,8 +191,9 @@ type executor struct {
 	seen    map[string]bool
 	step    int
 	curOp   string
-	defined map[int]bool // names defined by some VM so far
-	trace   []string     // human-readable log (filled only when verbose)
+	defined map[int]bool     // names defined by some VM so far
+	dead    map[uintptr]bool // addresses of the TempVMs this history discarded (numbers only, no references)
+	trace   []string         // human-readable log (filled only when verbose)
 	verb    bool
 }
 
@@ -231,6 +235,60 @@ func (x *executor) newTemp(i int) {
 		t.PrepareParse(x.bp)
 	}
 	x.temps[i] = t
+}
+
+func vmAddr(t *runtime.TempVM) uintptr { return reflect.ValueOf(t).Pointer() }
+
+// dropTemp forgets the TempVM of slot i and returns its address as a plain number. After it
+// returns the harness holds no reference to that VM: the model knows definitions by serial
+// only, parsers/contexts/programs made for the VM were locals of runScript.
+//
+//go:noinline
+func (x *executor) dropTemp(i int) uintptr {
+	a := vmAddr(x.temps[i])
+	x.temps[i] = nil
+	return a
+}
+
+// discardTemp makes "discard VM" real: the old TempVM becomes unreachable, two collections
+// run so that its memory is free again, and only then the slot's next TempVM is created.
+// Among the next allocations the one that lands on the address of a discarded VM is
+// preferred (an identity kept as an address anywhere in origami then meets its ABA case);
+// which allocation is used has no influence on any verdict, only on what can be observed.
+func (x *executor) discardTemp(i int) {
+	just := x.dropTemp(i)
+	x.dead[just] = true
+	goruntime.GC()
+	goruntime.GC()
+	var chosen, older *runtime.TempVM
+	spare := make([]*runtime.TempVM, 0, 64)
+	for n := 0; n < 256 && chosen == nil; n++ {
+		t := runtime.NewTempVM(x.base).(*runtime.TempVM)
+		a := vmAddr(t)
+		switch {
+		case a == just:
+			chosen = t
+		case older == nil && x.dead[a]:
+			older = t
+			spare = append(spare, t) // keep it alive so that later candidates are distinct
+		default:
+			spare = append(spare, t)
+		}
+	}
+	if chosen == nil {
+		chosen = older
+	}
+	if chosen == nil {
+		chosen = spare[0]
+	}
+	if a := vmAddr(chosen); x.dead[a] {
+		x.res.Reused++
+		delete(x.dead, a) // live again
+	}
+	if !x.c.NoPrep {
+		chosen.PrepareParse(x.bp)
+	}
+	x.temps[i] = chosen
 }
 
 // runScript parses src on a parser bound to VM i and runs it on a context of VM i.
@@ -552,7 +610,19 @@ func none(int, byte, int) bool { return false }
 
 // Run executes the whole history. It never panics: a Go panic out of origami is a finding.
 func runCase(c Case, off map[string]bool, dir string, verbose bool) (res caseResult, trace []string) {
-	x := &executor{c: c, off: off, dir: dir, m: NewModel(c.Temps), prev: map[string]string{}, res: &res, seen: map[string]bool{}, verb: verbose, defined: map[int]bool{}}
+	if c.Only != "" {
+		caseOff := map[string]bool{}
+		for k, v := range off {
+			caseOff[k] = v
+		}
+		for _, ch := range channels {
+			if ch.Group == 't' && ch.Name != c.Only {
+				caseOff[ch.Name] = true
+			}
+		}
+		off = caseOff
+	}
+	x := &executor{c: c, off: off, dir: dir, m: NewModel(c.Temps), prev: map[string]string{}, res: &res, seen: map[string]bool{}, verb: verbose, defined: map[int]bool{}, dead: map[uintptr]bool{}}
 	defer func() { trace = x.trace }()
 	guard := func(what string, f func()) (ok bool) {
 		defer func() {
@@ -680,7 +750,7 @@ func runCase(c Case, off map[string]bool, dir string, verbose bool) (res caseRes
 			case 'X':
 				x.m.Discard(o.VM)
 				x.res.Discards++
-				x.newTemp(o.VM)
+				x.discardTemp(o.VM)
 				pfx := strconv.Itoa(o.VM) + "|"
 				for k := range x.prev {
 					if strings.HasPrefix(k, pfx) {
